@@ -56,7 +56,8 @@ class PolyMotion : public Motion::Custom::Implementation {
 public:
     Motion::Level level; Motion::Method method; double c0[8], c1[8], c2[8];
     PolyMotion(vh::Rng& g, Motion::Level l, Motion::Method m) : level(l), method(m) {
-        for (int i = 0; i < 8; ++i) { c0[i] = g.range(-0.6, 0.6); c1[i] = g.range(-0.8, 0.8); c2[i] = g.range(-1.0, 1.0); }
+        // |value| <= 0.3 + 0.2*2 + 0.2*2 = 1.1 for t in [0,2]: position-level Euler angles stay away from the singularity
+        for (int i = 0; i < 8; ++i) { c0[i] = g.range(-0.3, 0.3); c1[i] = g.range(-0.2, 0.2); c2[i] = g.range(-0.2, 0.2); }
     }
     double f(int i, double t) const { return c0[i] + c1[i] * t + c2[i] * t * t / 2; }
     double df(int i, double t) const { return c1[i] + c2[i] * t; }
@@ -290,6 +291,12 @@ static void treeCase(uint64_t seed, long k) {
                 mb.lockAt(s, ~W[1], P.stateLockLevel); vc = "strided";
             } else mb.lockAt(s, v, P.stateLockLevel);
             vh::D(std::string("plan.lockAt.") + levelName(P.stateLockLevel) + "." + vc + (P.zeroLockValues ? ".zero" : ""));
+            // observation outside the property (MobilizedBody.h says lockAt at velocity level sets u in the state; the code
+            // only records the value, u is set by the next prescribe): counted, not a predicate
+            if (P.stateLockLevel == Motion::Velocity && vc != "strided") {
+                Vector un = mb.getUAsVector(s); bool same = true; for (int j = 0; j < n; ++j) same = same && bitEq(un[j], v[j]);
+                if (!same) vh::D("obs.lockAt_velocity_leaves_u_until_prescribe");
+            }
             // the explicit value must be what the lock holds
             Vector got = mb.getLockValueAsVector(s);
             double e = got.size() == n ? 0.0 : NAN;
